@@ -206,6 +206,18 @@ def tlc(module, cfg=None, env=None, workers=None, timeout=900, heap="8g", extra=
     out = "\n".join(l for l in p.stdout.splitlines() if not re.match(r"^(Loading|Parsing file|Semantic processing|Linting)", l))
     return TlcResult(p.returncode, out, time.time() - t0)
 
+def apalache(module, inv, length=0, timeout=300):
+    """apalache-mc check --length=<n> --inv=<inv> on spec/<module>.tla; returns (ok, output).  ok is None when the tool is unavailable or timed out."""
+    out_dir = os.path.join(scratch(), "apalache_" + module)
+    try:
+        p = subprocess.run(["apalache-mc", "check", "--length=%d" % length, "--inv=" + inv, "--out-dir=" + out_dir, os.path.join(SPEC, module + ".tla")],
+                           cwd=scratch(), timeout=timeout, stdout=subprocess.PIPE, stderr=subprocess.STDOUT, text=True)
+    except (subprocess.TimeoutExpired, FileNotFoundError) as e:
+        return None, str(e)
+    if "The outcome is: NoError" in p.stdout: return True, p.stdout
+    if "The outcome is: Error" in p.stdout: return False, p.stdout
+    return None, p.stdout
+
 _scratch = None
 def scratch():
     """per-run scratch directory (removed at exit by the caller of cleanup())"""
